@@ -14,8 +14,24 @@ from opsdrive import dec, enc, nested, face_shape, trans_shape, SIDES, sur_sin
 KINDS = ["dirichlet", "noflux", "periodic"]
 
 
-def gen(rng, cls, nmax=3, closed=False, **kw):
-    cfg = opsdrive.gen_config(rng, cls, nmax=nmax, allow_periodic=False)
+def periodic_systematic(closed=True, seed=0):
+    """the periodic family of opsdrive.periodic_systematic_configs (each periodic-capable axis periodic, the other
+    axes with pairwise different end-cell ratios) as closed transport problems with divergence-free velocities"""
+    import random as _r
+    out = []
+    for base in opsdrive.periodic_systematic_configs(False, seed):
+        cls = base["cls"]
+        pa = [a for a in range(drive.dim(cls)) if any(base["bc"][s]["periodic"] for s in SIDES[a])]
+        rng = _r.Random(hash((seed, cls, tuple(pa))) & 0xffffffff)
+        cfg = gen(rng, cls, closed=closed, faces_override=[[dec(q) for q in f] for f in base["faces"]],
+                  force_periodic=set(pa))
+        cfg["systematic"] = "periodic"
+        out.append(cfg)
+    return out
+
+
+def gen(rng, cls, nmax=3, closed=False, faces_override=None, force_periodic=None, **kw):
+    cfg = opsdrive.gen_config(rng, cls, nmax=nmax, allow_periodic=False, faces_override=faces_override)
     d = drive.dim(cls)
     faces = [[dec(q) for q in f] for f in cfg["faces"]]
     dims = [len(f) - 1 for f in faces]
@@ -25,7 +41,10 @@ def gen(rng, cls, nmax=3, closed=False, **kw):
     for a in range(d):
         lab = drive.AXIS_LABELS[cls][a]
         uni = (faces[a][1] - faces[a][0]) == (faces[a][-1] - faces[a][-2])
-        if lab != "r" and not (cls == "SphericalGrid3D" and lab == "theta") and uni and rng.random() < 0.3:
+        per = lab != "r" and not (cls == "SphericalGrid3D" and lab == "theta") and uni and rng.random() < 0.3
+        if force_periodic is not None:
+            per = a in force_periodic
+        if per:
             kinds[SIDES[a][0]] = kinds[SIDES[a][1]] = "periodic"
         else:
             for s in SIDES[a]:
@@ -210,6 +229,8 @@ def observe(cfg, want):
                         P.solvePDE(v, [P.transientTerm(v, 0.5, 1.0), -P.diffusionTerm(c.D), conv])
                     seq.append(v.domainIntegral())
                 integ[name] = [lift.lift_enc(x / math.pi ** e, tol=1e-11, qmax=400) for x in seq]
+                if integ[name][0][1] == 0:
+                    integ[name] = []      # the initial integral itself is not a small rational: nothing to compare with
             obs["integrals"] = integ
             obs["periodic_any"] = periodic_any
     obs["steps"] = steps
